@@ -4,21 +4,25 @@ quick check of each property (default: those in meta.json `breaks`), reverts /re
 and appends the outcome to /verif/seeded/RESULTS.jsonl."""
 import sys, os, json, subprocess, time
 sid = sys.argv[1]
+# VERIF_ROOT / VERIF_REPO: run against a scratch copy of /verif and a scratch worktree of /repo (outside both), so that
+# seeded changes can be tried while /verif is being edited; the default is /verif against /repo itself
+VROOT = os.environ.get('VERIF_ROOT', '/verif')
+REPO = os.environ.get('VERIF_REPO', '/repo')
 d = '/verif/seeded/' + sid
 meta = json.load(open(d + '/meta.json'))
 props = sys.argv[2:] or meta['breaks']
 def sh(cmd):
     p = subprocess.run(cmd, shell=True, stdout=subprocess.PIPE, stderr=subprocess.STDOUT, text=True)
     return p.returncode, p.stdout
-rc, out = sh('git -C /repo status --porcelain')
-assert out.strip() == '', '/repo not clean: ' + out
-rc, out = sh('git -C /repo apply %s/patch.diff' % d)
+rc, out = sh('git -C %s status --porcelain' % REPO)
+assert out.strip() == '', REPO + ' not clean: ' + out
+rc, out = sh('git -C %s apply %s/patch.diff' % (REPO, d))
 assert rc == 0, out
 results = []
 try:
     for p in props:
         t = time.time()
-        rc, out = sh('cd /verif && bin/check %s --tier quick' % p)
+        rc, out = sh('cd %s && bin/check %s --tier quick' % (VROOT, p))
         line = [l for l in out.splitlines() if l.startswith('VIOLATION') or l.startswith('OK')]
         kind = 'missed'
         replay = None
@@ -34,9 +38,9 @@ try:
         results.append(r)
         print(json.dumps(r)[:700])
 finally:
-    sh('git -C /repo checkout -- . && git -C /repo clean -fdq')
+    sh('git -C %s checkout -- . && git -C %s clean -fdq' % (REPO, REPO))
     # evidence written while a seeded change was applied is not evidence about the real tree
-    sh('cd /verif && git checkout -- evidence 2>/dev/null; rm -rf /verif/evidence/replay')
+    sh('cd %s && git checkout -- evidence 2>/dev/null; rm -rf %s/evidence/replay' % (VROOT, VROOT))
 with open('/verif/seeded/RESULTS.jsonl', 'a') as f:
     for r in results:
         f.write(json.dumps(r) + '\n')
